@@ -775,6 +775,27 @@ func builtinLenLessThanOrEqual(_ *lisp.LEnv, args *lisp.LVal) *lisp.LVal {
 	return lenConstraint(args, func(length, comparison int) bool { return length > comparison })
 }
 
+// compareInts orders bound against input EXACTLY when both are ints, and
+// reports false when either is not (the caller then compares as float64, the
+// way the language itself compares an int with a float).
+//
+// The ordering constraints used to convert both sides to float64
+// unconditionally.  A float64 carries 53 bits of integer precision, so two
+// different ints above 2^53 collapsed to the same float: (s:gt 2^53) rejected
+// 2^53+1 and (s:gte 2^53+1) accepted 2^53.
+func compareInts(bound, input *lisp.LVal) (int, bool) {
+	if bound.Type != lisp.LInt || input.Type != lisp.LInt {
+		return 0, false
+	}
+	switch {
+	case bound.Int < input.Int:
+		return -1, true
+	case bound.Int > input.Int:
+		return 1, true
+	}
+	return 0, true
+}
+
 // Checks value is greater than specified value
 func builtinGreaterThan(_ *lisp.LEnv, args *lisp.LVal) *lisp.LVal {
 	comparison, ok := lisp.GoFloat64(args.Cells[0])
@@ -786,6 +807,12 @@ func builtinGreaterThan(_ *lisp.LEnv, args *lisp.LVal) *lisp.LVal {
 		compareTo, ok := lisp.GoFloat64(input)
 		if !ok {
 			return lisp.ErrorConditionf(FailedConstraint, "Value cannot be compared")
+		}
+		if c, exact := compareInts(args.Cells[0], input); exact {
+			if c >= 0 {
+				return lisp.ErrorConditionf(FailedConstraint, "Supplied value was less than the allowed value")
+			}
+			return lisp.Nil()
 		}
 		if comparison >= compareTo {
 			return lisp.ErrorConditionf(FailedConstraint, "Supplied value was less than the allowed value")
@@ -806,6 +833,12 @@ func builtinGreaterThanOrEqual(_ *lisp.LEnv, args *lisp.LVal) *lisp.LVal {
 		if !ok {
 			return lisp.ErrorConditionf(FailedConstraint, "Value cannot be compared")
 		}
+		if c, exact := compareInts(args.Cells[0], input); exact {
+			if c > 0 {
+				return lisp.ErrorConditionf(FailedConstraint, "Supplied value %v was less than the allowed value %v", input, args.Cells[0])
+			}
+			return lisp.Nil()
+		}
 		if comparison > compareTo {
 			return lisp.ErrorConditionf(FailedConstraint, "Supplied value %v was less than the allowed value %v", compareTo, comparison)
 		}
@@ -825,6 +858,12 @@ func builtinLessThan(_ *lisp.LEnv, args *lisp.LVal) *lisp.LVal {
 		if !ok {
 			return lisp.ErrorConditionf(FailedConstraint, "Value cannot be compared")
 		}
+		if c, exact := compareInts(args.Cells[0], input); exact {
+			if c <= 0 {
+				return lisp.ErrorConditionf(FailedConstraint, "Supplied value was greater than the allowed value")
+			}
+			return lisp.Nil()
+		}
 		if comparison <= compareTo {
 			return lisp.ErrorConditionf(FailedConstraint, "Supplied value was greater than the allowed value")
 		}
@@ -843,6 +882,12 @@ func builtinLessThanOrEqual(_ *lisp.LEnv, args *lisp.LVal) *lisp.LVal {
 		compareTo, ok := lisp.GoFloat64(input)
 		if !ok {
 			return lisp.ErrorConditionf(FailedConstraint, "Value cannot be compared")
+		}
+		if c, exact := compareInts(args.Cells[0], input); exact {
+			if c < 0 {
+				return lisp.ErrorConditionf(FailedConstraint, "Supplied value was greater than the allowed value")
+			}
+			return lisp.Nil()
 		}
 		if comparison < compareTo {
 			return lisp.ErrorConditionf(FailedConstraint, "Supplied value was greater than the allowed value")
